@@ -622,4 +622,111 @@ theorem run_append (c : Codec β) (a b : List (Op β)) (f : File β) :
     | ok f' => exact ih f'
     | error e => rfl
 
+/-! ### nothing is invented by `persist` -/
+
+theorem mem_keys_persistLoop (src : Src) (data : List (Key × Val)) (k : Key)
+    (h : k ∈ keys (persistLoop src data)) : k ∈ keys data ∨ ∃ kn ∈ src, k = Key.str kn.1 := by
+  induction src generalizing data with
+  | nil => exact Or.inl h
+  | cons hd t ih =>
+    obtain ⟨k1, n1⟩ := hd
+    simp only [persistLoop] at h
+    rcases ih _ h with h' | ⟨kn, hkn, e⟩
+    · rcases (mem_keys_aset _ _ _ _).1 h' with e | h''
+      · exact Or.inr ⟨(k1, n1), List.mem_cons_self, e⟩
+      · exact Or.inl h''
+    · exact Or.inr ⟨kn, List.mem_cons_of_mem _ hkn, e⟩
+
+/-! ### xr -/
+
+theorem append_left_cancel' {p a b : String} (h : p ++ a = p ++ b) : a = b := by
+  have h1 := congrArg String.toList h
+  simp only [String.toList_append] at h1
+  exact String.toList_inj.1 (List.append_cancel_left h1)
+
+theorem xrEntry_key (pfx : String) (url : Option String) (k : Key) (v : Val) (k' : Key) (v' : Val)
+    (h : xrEntry pfx url k v = .ok (k', v')) : ∃ l, k = .str l ∧ k' = .str (pfx ++ l) := by
+  unfold xrEntry at h
+  split at h
+  · simp only at h
+    split at h
+    · cases h
+    · split at h
+      · cases h; exact ⟨_, rfl, rfl⟩
+      · cases h
+  · cases h
+
+theorem xrBlock_frame (pfx : String) (url : Option String) (es : List (Key × Val)) (L : XLabels) (l : String)
+    (h : Key.str l ∉ keys es) : aget (.str (pfx ++ l)) (xrBlock pfx url es L) = aget (.str (pfx ++ l)) L := by
+  induction es generalizing L with
+  | nil => rfl
+  | cons hd t ih =>
+    obtain ⟨k1, v1⟩ := hd
+    simp only [keys_cons, List.mem_cons, not_or] at h
+    simp only [xrBlock]
+    split
+    · next k' v' hk =>
+      rw [ih _ h.2]
+      obtain ⟨l1, rfl, rfl⟩ := xrEntry_key _ _ _ _ _ _ hk
+      apply aget_aset_ne
+      intro e
+      have : pfx ++ l = pfx ++ l1 := Key.str.inj e
+      exact h.1 (by rw [append_left_cancel' this])
+    · exact ih _ h.2
+
+theorem xrBlock_get (pfx : String) (url : Option String) (es : List (Key × Val)) (L : XLabels)
+    (hnd : (keys es).Nodup) (l : String) (v v' : Val) (hget : aget (.str l) es = some v)
+    (hok : xrEntry pfx url (.str l) v = .ok (.str (pfx ++ l), v')) :
+    aget (.str (pfx ++ l)) (xrBlock pfx url es L) = some v' := by
+  induction es generalizing L with
+  | nil => simp [aget] at hget
+  | cons hd t ih =>
+    obtain ⟨k1, v1⟩ := hd
+    simp only [keys_cons, List.nodup_cons] at hnd
+    simp only [xrBlock]
+    by_cases hk : k1 = Key.str l
+    · subst hk
+      simp [aget] at hget; subst hget
+      rw [hok]; simp only
+      rw [xrBlock_frame _ _ _ _ _ hnd.1]; simp
+    · simp [aget, hk] at hget
+      split
+      · exact ih _ hnd.2 hget
+      · exact ih _ hnd.2 hget
+
+/-- every label xr holds afterwards was there before or is `prefix + l` for an entry `l` of the block -/
+theorem xrBlock_origin (pfx : String) (url : Option String) (es : List (Key × Val)) (L : XLabels) (k : Key)
+    (h : k ∈ keys (xrBlock pfx url es L)) : k ∈ keys L ∨ ∃ l, Key.str l ∈ keys es ∧ k = .str (pfx ++ l) := by
+  induction es generalizing L with
+  | nil => exact Or.inl h
+  | cons hd t ih =>
+    obtain ⟨k1, v1⟩ := hd
+    simp only [xrBlock] at h
+    split at h
+    · next k' v' hk =>
+      obtain ⟨l1, rfl, rfl⟩ := xrEntry_key _ _ _ _ _ _ hk
+      rcases ih _ h with h' | ⟨l, hl, e⟩
+      · rcases (mem_keys_aset _ _ _ _).1 h' with e | h''
+        · exact Or.inr ⟨l1, by simp, e⟩
+        · exact Or.inl h''
+      · exact Or.inr ⟨l, by simp [hl], e⟩
+    · rcases ih _ h with h' | ⟨l, hl, e⟩
+      · exact Or.inl h'
+      · exact Or.inr ⟨l, by simp [hl], e⟩
+
+theorem xrEntry_saved (T : TablesOk) (pfx : String) (k : String) (n : SrcNode) :
+    xrEntry pfx none (.str k) (.dict (macroPersist n)) = .ok (.str (pfx ++ k), .dict (macroPersist n)) := by
+  unfold xrEntry
+  simp only
+  have : toDict (macroPersist n) = macroPersist n := by
+    rw [macroPersist_eq n T.nodup]; exact toDict_eq_self (persistPairs_nodup n _ T.nodup)
+  rw [this]
+
+theorem xrLoadR_persist (c : Codec β) (hc : c.Lawful) (r pfx : String) (url : Option String) (src : Src) (f : File β)
+    (L : XLabels) :
+    xrLoadR c r pfx url (.bytes (c.enc (.dict (newDict c r src f)))) L =
+      xrBlock pfx url (persistLoop src (toDict (oldData c r f))) L := by
+  simp only [xrLoadR, hc (.dict _), toDict_eq_self (newDict_nodup c r src f), newDict_self,
+    toDict_eq_self (persistLoop_nodup _ _ (toDict_nodup _))]
+
 end PlasVerif.Proofs.Persist
